@@ -2,6 +2,15 @@
 """Regenerate the seeded-change table of DESIGN.md section 10 from /verif/seeded/*/meta.json."""
 import json, glob, os, re
 NOTES = {
+ "C05c-first-run-done-no-resuspend": "missed at first: quick tier had no instantly-completing conditional aux above a running one; now-never / now-repeat1 pairs added to C05/C10 quick",
+ "C20c-marker-dedupe-across-kinds": "missed at first: no program used `is updated` and `is changed` on the same share/key/frame; both-kinds family added",
+ "C09c-claimed-only-if-unowned": "missed at first: shared original aux was never HELD by the exited frame while two target frames carried it; hand-over family added",
+ "C06c-exit-skips-done-aux": "missed at first by C06 (C09 caught it): C06 had only conditional auxes; plain auxes that complete before their main frame exits added",
+ "C08c-refused-attempt-runs-tracts": "missed at first by C08 (C20 caught it): refused attempts never had marker conditions; marker-guarded transitions and refused conditional-aux starts added to C08",
+ "C11c-clone-implicit-need-path": "missed at first by C11 (C12 caught it): timeout/repeat never ran inside a clone; clone variants of the clock chains added",
+ "C14c-doneneed-framer-default": "missed at first: need spellings with `in frame` but no `in framer` were not generated; need-spelling family (2079 needs x contexts) added",
+ "C16c-connectives-missing-comma": "missed at first: the check read the connective list from ioflo itself; literal list from the docs + `via`/`as` clauses on every verb that allows them",
+ "C22c-deck-spew-stops-at-none": "missed at first: decks never held None / junk elements; added",
  "C07b-put-returns-share": "missed at first: store verbs were never placed in the precur context; precur/renter/rexit placements added to the pairwise family",
  "C30b-length-before-chunked": "missed at first: no 204/304/1xx/HEAD responses; bodiless kinds added (which also exposed the HEAD body defect, now fixed)",
  "C46b-wrap2-half-turn": "missed at first by C46 (C43 caught it): no input/set point exactly half a turn apart; added",
